@@ -33,7 +33,7 @@ class Isa:
         raise NotImplementedError
 
     def falls(self, ins):
-        return ins[0] in ("o", "p", "jcc", "call", "icall", "lea", "nop", "leaa", "callplt", "push", "pop", "syscall")
+        return ins[0] in ("o", "p", "jcc", "call", "icall", "lea", "nop", "leaa", "callplt", "push", "pop", "syscall", "cmpm")
 
     def is_cti(self, ins):
         return ins[0] in ("jmp", "jcc", "call", "ret", "ijmp", "icall", "callplt", "syscall")
@@ -79,6 +79,8 @@ class X64(Isa):
             return b"\x48\x8d\x05\x00\x00\x00\x00", (3, 4, ins[1], ins[2], ())
         if k == "callplt":
             return b"\xe8\x00\x00\x00\x00", (1, 4, ins[1], 0, ("PLT",))
+        if k == "cmpm":  # pc-relative memory operand FOLLOWED by an immediate: ("cmpm", L, addend) = cmpl $1, L+addend(%rip)
+            return b"\x83\x3d\x00\x00\x00\x00\x01", (2, 4, ins[1], ins[2] if len(ins) > 2 else 0, ())
         if k == "qa":  # data word with addend
             return b"\x00" * 8, (0, 8, ins[1], ins[2], ())
         if k == "d":
@@ -103,6 +105,8 @@ class X64(Isa):
             return "leaq %s%+d(%%rip), %%rax" % (ins[1], ins[2])
         if k == "callplt":
             return "call %s@PLT" % ins[1]
+        if k == "cmpm":
+            return "cmpl $1, %s%s(%%rip)" % (ins[1], ("%+d" % ins[2]) if len(ins) > 2 and ins[2] else "")
         if k == "qa":
             return ".quad %s%+d" % (ins[1], ins[2])
         if k == "o":
@@ -308,6 +312,8 @@ def decode_x64(isa, data, sym_at):
             out.append(("lea", sym_at(i + 3))); i += 7
         elif c == 0x8D and data[i + 1] == 0x05 and isa.name == "ia32":
             out.append(("lea", sym_at(i + 2))); i += 6
+        elif c == 0x83 and data[i + 1] == 0x3D:
+            out.append(("cmpm", sym_at(i + 2))); i += 7
         elif c == 0x90:
             out.append(("nop",)); i += 1
         elif c == 0x0F and data[i + 1] == 0x05:
@@ -374,4 +380,7 @@ def selfcheck():
             assert r == (ins[0] == "ret"), (tname, ins)
             if ins[0] in ("o", "p"):
                 assert ("%#x" % ins[1]) in dec[0].op_str or str(ins[1]) in dec[0].op_str, (tname, dec[0].op_str)
+        if isa.name == "x64":
+            (d,) = list(cs.disasm(isa.enc(("cmpm", "L"))[0], 0x1000))
+            assert d.mnemonic == "cmp" and d.size == 7 and d.disp_offset == 2 and d.disp_size == 4 and d.imm_offset == 6, d.op_str
     return True
